@@ -143,6 +143,47 @@ static void m5(void) {
     VS_CHECK(aws_thread_join_all_managed() == AWS_OP_SUCCESS, "join-all-result", "join_all failed");
     check_managed_all(2);
 }
+/* M6: a configured join timeout fires while one managed thread has finished (parked for a lazy join) and another is still
+ * running; join-all may then return early (documented), but nothing may be lost: once the straggler is let go, a second
+ * join-all without timeout must join everything, reach count zero and leave no bookkeeping behind (added after a seeded
+ * change that dropped the pending thread on the timeout path) */
+static void m6(void) {
+    setup();
+    aws_thread_set_managed_join_timeout_ns(1000000); /* 1 ms of virtual time */
+    pthread_mutex_lock(&hm);                          /* both bodies take hm: hold it so that they cannot finish yet */
+    m_launch(0);
+    m_launch(1);
+    pthread_mutex_unlock(&hm);
+    int rc1 = aws_thread_join_all_managed(); /* may time out (AWS_OP_ERR) or succeed, depending on the schedule */
+    aws_thread_set_managed_join_timeout_ns(0);
+    VS_CHECK(aws_thread_join_all_managed() == AWS_OP_SUCCESS, "join-all-result", "second join_all (no timeout) failed");
+    (void)rc1;
+    check_managed_all(2);
+    vs_outcome("first join_all %s", rc1 == AWS_OP_SUCCESS ? "completed" : "timed out");
+}
+/* M7: two threads are inside join-all at the same time (an explicit call racing library clean-up): both must return */
+static void *m7_joiner(void *a) {
+    (void)a;
+    if (aws_thread_join_all_managed() != AWS_OP_SUCCESS) vs_fail("join-all-result", "join_all on the helper thread failed");
+    return NULL;
+}
+static void m7(void) {
+    setup();
+    pthread_mutex_lock(&hm);
+    m_launch(0);
+    m_launch(1);
+    pthread_t j;
+    pthread_create(&j, NULL, m7_joiner, NULL);
+    pthread_mutex_unlock(&hm);
+    VS_CHECK(aws_thread_join_all_managed() == AWS_OP_SUCCESS, "join-all-result", "join_all failed");
+    pthread_join(j, NULL);
+    VS_CHECK(aws_thread_get_managed_thread_count() == 0, "managed-count", "managed thread count is %zu after both join_all calls returned", aws_thread_get_managed_thread_count());
+    VS_CHECK(vs_threads_unfinished() == 0, "managed-not-finished", "threads still running after join_all");
+    VS_CHECK(vs_thread_was_joined(1) && vs_thread_was_joined(2), "managed-not-joined", "a managed thread was never joined");
+    check_thread(0, 1);
+    check_thread(1, 2);
+    VS_CHECK(ga.live_blocks == 0, "leak", "%llu allocation(s) still live", (unsigned long long)ga.live_blocks);
+}
 /* J1: joinable thread with at-exit callbacks */
 static int j1_n = 2;
 static void j1(void) {
@@ -188,6 +229,8 @@ int main(int argc, char **argv) {
         {.name = "M3-managed-launches-managed", .run = m3, .bound_quick = 3, .bound_thorough = 4},
         {.name = "M4-join-all-while-running", .run = m4, .bound_quick = 3, .bound_thorough = 5},
         {.name = "M5-managed-cpu-pinning-refused", .run = m5, .bound_quick = 2, .bound_thorough = 3},
+        {.name = "M6-join-timeout-then-join-all", .run = m6, .bound_quick = 2, .bound_thorough = 3},
+        {.name = "M7-two-join-all-callers", .run = m7, .bound_quick = 2, .bound_thorough = 3},
         {.name = "J1-joinable-at-exit", .run = j1, .bound_quick = 3, .bound_thorough = 5},
         {.name = "J2-managed-at-exit-plus-joinable", .run = j2, .bound_quick = 3, .bound_thorough = 4},
     };
